@@ -327,6 +327,21 @@ func init() {
 				"hottest": 0, "coldest": 0, "setmax": 0, "getmax": 0, "wsize": 0, "esize": 0, "stats": 0})},
 		nontrivial: func(o *SeqOutcome) bool { h, _ := probeSum(o, "op:get@", "live"); return h >= 17 },
 	})
+	// C09 with expiry: the write that lands while a load is in flight may itself expire before the
+	// loader returns (the clock moves during the stalled load); the loaded value must still not be
+	// installed. No linearizability model here (expiry is reachable): the stale-load and
+	// displaced-newer-write rules and the audits judge the run.
+	c09exp := &ConcOpts{
+		AimAdvance: true,
+		Profile:    Profile{Prop: "C09", ForceExp: true, NoRef: true, Keys: [2]int{1, 2}},
+		OpW:        zeroExcept(map[string]int{"load": 24, "bulkget": 4, "set": 12, "setifabsent": 3, "compute": 5, "computeifabsent": 2, "invalidate": 6, "get": 8, "advance": 16}),
+		Tasks:      [2]int{2, 3}, OpsPer: [2]int{2, 8}, Prefill: [2]int{0, 2},
+		Executors: []string{"default", "sync", "queued"}, AllowStall: true, StallP: 3,
+		NonTrivial: func(o *ConcOutcome) bool {
+			return o.Probes["write-while-loader-runs"]+o.Probes["write-between-loader-return-and-install"] > 0
+		},
+	}
+	Props["C09"].Engines = append(Props["C09"].Engines, &concEngine{opts: c09exp})
 	// C17 at cache level under concurrency: readers, writers, InvalidateAll and CleanUp race on a cache
 	// with one or two read-buffer stripes; afterwards every recorded read must have been delivered
 	// (nothing left in the read buffer once maintenance ran at quiescence - rule
